@@ -173,7 +173,7 @@ class C06(Check):
             "udiv umod sdiv smod unary - cntleadzeros cnttrailzeros parity == slices compositions conditionals memory "
             "reads of 1..64 bits over 8/16/32/64-bit pointers), widths 1..64, depth<=3 (8% over every operator to "
             "count rejections); 9 assignments per expression (0, 1, -1, INT_MIN, INT_MAX, INT_MIN/-1 mixes, boundary/random picks), plus 4 "
-            "big-endian ones when the expression reads memory; script solved by z3 (thorough: 5% also by cvc5). "
+            "big-endian ones when the expression reads memory; script solved by z3 (thorough: 2% also by cvc5). "
             "Non-trivial: >= 2 operator nodes or a memory read; distinct by expression text.")
     assumptions = ["memory arrays are named mem<pointer width>; only the cells read by the reference evaluator are "
                    "constrained, the solver chooses the others",
@@ -205,7 +205,7 @@ class C06(Check):
             cnt[0] += 1
             if cnt[0] % 2000 == 0:
                 transl.explicit_simp().cache.clear()
-            H.cvc5 = use_cvc5 and cnt[0] % 20 == 0
+            H.cvc5 = use_cvc5 and cnt[0] % 50 == 0
             fails = H.judge(e, NTUPLES, res)
             H.cvc5 = False
             for k in transl.op_kinds(e):
